@@ -82,6 +82,7 @@ func c01EnumerateK(level int) []c01Prog {
 	k.pointers()
 	k.evalOrder()
 	k.loopVar()
+	k.loopVar3c()
 	k.noReturn()
 	return k.out
 }
